@@ -83,6 +83,7 @@ class Executor(object):
         self.events = []
         self.assume_feasible = False
         self.debug_merge = None
+        self.linear_normalize = False
         self.effect_seen = set()
         self.varsets = {}
         self.pin_consts = False
@@ -718,6 +719,16 @@ class Executor(object):
         raise Unsupported('reference comparison %r %r' % (x, y))
 
     def cx_binop(self, bop, x, y):
+        r = self._cx_binop(bop, x, y)
+        if self.linear_normalize:
+            def norm(v):
+                if isinstance(v, FReal):
+                    return FReal(z3.simplify(v.t, som=True))
+                return v
+            r = Cx(norm(r.re), norm(r.im))
+        return r
+
+    def _cx_binop(self, bop, x, y):
         fc = self.fc
         if bop == '+':
             return Cx(f_binop(fc, '+', x.re, y.re), f_binop(fc, '+', x.im, y.im))
@@ -1150,6 +1161,9 @@ class Executor(object):
         if name == 'complex':
             return Cx(args[0], args[1])
         if name in ('print', 'println'):
+            return None
+        if name == 'recover':
+            # panicking paths end at the panic (recorded as obligations); on surviving paths there is nothing to recover
             return None
         raise Unsupported('builtin ' + name)
 
